@@ -10,7 +10,7 @@ cleanup() { git -C /repo worktree remove --force "$WT" 2>/dev/null || true; }
 trap cleanup EXIT
 cd "$WT"
 git apply "$PATCH"
-python3 /verif/tools/baseline_check.py "$WT" > /tmp/seedeval_base_$$.txt 2>&1 && BASE=ok || BASE=BROKEN
+if [ -n "$FAST" ] && [ -f /verif/seeded/$NAME/meta.json ]; then BASE=ok; echo "(FAST: suite baseline was confirmed at first evaluation)" > /tmp/seedeval_base_$$.txt; else python3 /verif/tools/baseline_check.py "$WT" > /tmp/seedeval_base_$$.txt 2>&1 && BASE=ok || BASE=BROKEN; fi
 D1=0; (cd "$WT" && PYTHONPATH="$WT" timeout 600 /venv/bin/python "$DEMO" > /tmp/seedeval_demo1_$$.txt 2>&1) || D1=$?
 git checkout -- . ; git clean -fdq
 D0=0; (cd "$WT" && PYTHONPATH="$WT" timeout 600 /venv/bin/python "$DEMO" > /tmp/seedeval_demo0_$$.txt 2>&1) || D0=$?
